@@ -4,7 +4,7 @@
 From Coq Require Import Permutation.
 From CR Require Import Base Atomic Machine LinksFacts HeapFacts TraceFacts TraceTotal Local StackBound
   Termination Perm StdRc StdRefine Tokens InvDef InvLemmas ActBase ActHandles ActAdopt ActMove ActConsume
-  StepFrames StepPanic Purge GroupOps DropDec Group DropLast StepInv RunInv Consequences PidInv Common.
+  StepFrames StepPanic Purge GroupOps DropDec Group DropLast StepInv RunInv Consequences PidInv TablesFrame Recorded Common.
 Local Open Scope N_scope.
 
 (** Full statement. For every history (any length, any graph shape, any choice
@@ -93,6 +93,28 @@ Theorem C01_deref_yields_the_original_value :
   exec_act s self (ADeref hr) = AO s self (RNat (N.of_nat o)) [].
 Proof. exact deref_original_any. Qed.
 Print Assumptions C01_deref_yields_the_original_value.
+
+(** THE PRECONDITION IS GUARANTEED BY THE DOCUMENTED IDIOM. A program built from
+    the calls that neither store nor record handles (new, clone, drop, Weak
+    traffic, try_unwrap, raw round trips, observers) and from the two blocks
+      link   = clone b; adopt(a, &clone); store the clone in a
+      unlink = unadopt(a, &stored); take it out of a
+    keeps "every stored strong handle is recorded, with multiplicity"
+    ([recorded]) at every call boundary; this implies the per-step hypothesis
+    [hist_ok] at EVERY nested drop of every call (values without destructor
+    scripts), hence all of the above: no fault, invariant, reachable => alive *)
+Theorem C01_link_unlink_idiom_is_disciplined :
+  forall f h s, good s -> rec_hist (S f) s h ->
+  hist_ok (S f) s h = true /\
+  (forallb completed (snd (run_history (S f) s h)) = true -> good (fst (run_history (S f) s h))).
+Proof. exact rec_hist_ok. Qed.
+Print Assumptions C01_link_unlink_idiom_is_disciplined.
+
+Theorem C01_idiomatic_programs_are_safe :
+  forall f h, rec_hist (S f) init_state h ->
+  Forall (fun r => match r with OHalt e => e = HAbort | _ => True end) (snd (run_history (S f) init_state h)).
+Proof. exact rec_hist_safe. Qed.
+Print Assumptions C01_idiomatic_programs_are_safe.
 
 (** the hypotheses are satisfiable by a non-trivial history *)
 Theorem C01_nonvacuous : hist_ok ex_fuel init_state ex_history = true.
